@@ -198,6 +198,16 @@ func (v *Val) ToGoTyped() interface{} {
 			out[f.N] = f.V.ToGoTyped()
 		}
 		return out
+	case "int":
+		// integers as the sized Go types a caller may hold them in (which one depends on the value only)
+		switch ((v.I % 4) + 4) % 4 {
+		case 1:
+			return v.I // int64
+		case 2:
+			if v.I >= -1<<31 && v.I < 1<<31 {
+				return int32(v.I)
+			}
+		}
 	}
 	return v.ToGo()
 }
